@@ -53,6 +53,9 @@ var _ uuid.UUID
 //@ spec sameTail(h heap.Interface, n int) bool = true
 
 //@ spec wfh(h heap.Interface) bool = hdyn(h) && itemsOK(h, len(qs(h))) && heapOK(h, len(qs(h)))
+// ordH: the order half of wfh, without the client predicate qP - what a function can promise about a queue it hands to a caller
+// that reads qP differently (heap order over typed, allocated items with non-NaN priorities)
+//@ spec ordH(h heap.Interface) bool = hdyn(h) && heapOK(h, len(qs(h))) && forall c int :: 0 <= c && c < len(qs(h)) ==> qs(h)[c] != nil && allocated(qs(h)[c]) && istype(qs(h)[c], PriorityQueueItem) && !isnan(qs(h)[c].priority)
 //@ spec wfpq(pq *priorityQueue) bool = wfh(pq.queue)
 
 // sift-down: edges whose parent is below i0 are fine on entry; on exit every edge with parent >= i0 is fine.
